@@ -43,6 +43,10 @@ pub enum COp {
     CloneShared,
     /// borrowed mode: read through the shared reference
     ReadShared,
+    /// borrowed mode: h0.clone_from(shared) (h0 may be empty, own another buffer, or the same one)
+    CloneFromShared,
+    /// borrowed mode: h1 = shared.to_lean_string()
+    ToLeanShared,
 }
 
 #[derive(Clone, Debug)]
@@ -57,7 +61,7 @@ pub struct Program {
 }
 
 fn gen_cop(r: &mut Rng, borrowed: bool) -> COp {
-    match r.below(if borrowed { 30 } else { 27 }) {
+    match r.below(if borrowed { 33 } else { 27 }) {
         0..=2 => COp::Clone,
         3 => COp::CloneFrom,
         4 => COp::ToLean,
@@ -83,7 +87,9 @@ fn gen_cop(r: &mut Rng, borrowed: bool) -> COp {
         24 => COp::Reserve([0usize, 1, 8, 40, 200][r.below(5)]),
         25..=26 => COp::ShrinkTo([0usize, 17, 20, 64][r.below(4)]),
         27..=28 => COp::CloneShared,
-        _ => COp::ReadShared,
+        29 => COp::ReadShared,
+        30..=31 => COp::CloneFromShared,
+        _ => COp::ToLeanShared,
     }
 }
 
@@ -239,6 +245,21 @@ fn run_thread(tid: usize, seed: u64, mut l: Local, ops: &[COp], shared: Option<(
                     if s.as_str() != m {
                         res = Err(format!("shared reference reads {:?}, expected {:?}", s.as_str(), m));
                     }
+                }
+            }
+            COp::CloneFromShared => {
+                if let Some((s, m)) = shared {
+                    match &mut l.h[0] {
+                        Some(h0) => h0.clone_from(s),
+                        None => l.h[0] = Some(s.clone()),
+                    }
+                    l.m[0] = Some(m.to_string());
+                }
+            }
+            COp::ToLeanShared => {
+                if let Some((s, m)) = shared {
+                    l.h[1] = Some(s.to_lean_string());
+                    l.m[1] = Some(m.to_string());
                 }
             }
             _ => {
